@@ -3,6 +3,7 @@ import io
 import json
 import math
 import re
+import sys
 import collections
 from collections import deque
 from collections.abc import Iterable, Iterator, Mapping, Sequence
@@ -76,6 +77,9 @@ class TypeTransformer:
 
     EPOCH = datetime(1970, 1, 1)
     MS_WATERSHED = int(2e10)
+    # text like '1e999999999' is a few characters long but denotes an integer of a billion digits: the same bound
+    # Python itself puts on int('9' * 5000) (sys.get_int_max_str_digits, 4300 by default; 0 = unlimited)
+    MAX_INT_DIGITS = getattr(sys, 'get_int_max_str_digits', lambda: 4300)()
     ARRAY_SEPARATORS = (",", ";")
     NULL_VALUES = ("null", "none", "nil")
     FALSE_VALUES = ("0", "false", "no", "off", "f")
@@ -432,6 +436,9 @@ class TypeTransformer:
                 raise TypeError
             if data.as_tuple().exponent:
                 raise TypeError
+
+        if self.MAX_INT_DIGITS and data.is_finite() and data.adjusted() >= self.MAX_INT_DIGITS:
+            raise TypeError(f'number exceeds the limit of {self.MAX_INT_DIGITS} integer digits')
 
         return t(data)
 
